@@ -510,24 +510,19 @@ func verifyCRLSignature(result *crlreader.CRLReadResult, chains *core.Certificat
 }
 
 func (R *Repository) DeleteTempFilesIfExist() {
-	repoDirBasePath, err := os.Stat(R.crlConfig.WorkDir)
+	//list the entries of the work dir itself, filepath.Walk does not descend into a work dir which is a symbolic link to a directory
+	entries, err := os.ReadDir(R.crlConfig.WorkDir)
 	if err != nil {
 		R.logger.Warn(fmt.Sprintf("Error while cleaning temp directory %s: %v", R.crlConfig.WorkDir, err))
+		return
 	}
-	err = filepath.Walk(R.crlConfig.WorkDir, func(path string, info os.FileInfo, err error) error {
+	for _, entry := range entries {
+		info, err := entry.Info()
 		if err != nil {
-			return err
+			R.logger.Warn(fmt.Sprintf("Error while cleaning temp directory %s: %v", R.crlConfig.WorkDir, err))
+			continue
 		}
-		if !os.SameFile(info, repoDirBasePath) {
-			R.deleteIfTempFileOrDir(path, info)
-		}
-		if info.IsDir() && !os.SameFile(info, repoDirBasePath) {
-			return filepath.SkipDir
-		}
-		return nil
-	})
-	if err != nil {
-		R.logger.Warn(fmt.Sprintf("Error while cleaning temp directory %s: %v", R.crlConfig.WorkDir, err))
+		R.deleteIfTempFileOrDir(filepath.Join(R.crlConfig.WorkDir, entry.Name()), info)
 	}
 }
 
